@@ -80,6 +80,10 @@ EXPLANATION += (
     ' Round 13: the index-space typing of the on-disk transposition (rule of C13) is shared.'
 )
 
+EXPLANATION += (
+    ' Round 14: node pairs emitted from itertools.combinations come from a plainly sorted list (R-ORDER/pairs-plainly-oriented).'
+)
+
 RULE_TEXT = (
     "one obligation per (file kind, reader, required dataset), per "
     "provenance relation; non-trivial when the reader requires at least "
